@@ -5,6 +5,7 @@ from __future__ import annotations
 import ast
 
 from .. import astutil as A
+from .. import cfg as C
 from .. import q
 from ..bidioms import broadcast_loops
 from ..idioms import cname, where
@@ -128,13 +129,75 @@ def d1_suspend_restore_pairing(ctx, rm: REModel, rule="C41.D1-suspend-restore-pa
     ctx.ob(rule, cname(rs, None, "re-subscribes exactly the kept entries"), ok, "" if ok else "restore does not re-subscribe the kept monitors", where=where(rs, rs.node))
 
 
-def d2_removal_sites(ctx, rm: REModel):
-    for nm, why in (("unmonitor", "after unmonitor"), ("close_run", "after the run is closed"), ("clear_monitors", "after the engine's cleanup")):
+def _forgets_monitor(n) -> bool:
+    """a CFG node whose statement removes entries from self._monitor_params"""
+    s = n.stmt
+    if s is None or n.kind != "stmt":
+        return False
+    if isinstance(s, ast.Delete) and any(isinstance(t, ast.Subscript) and A.chain(t.value) == "self._monitor_params" for t in s.targets):
+        return True
+    return any(isinstance(c.func, ast.Attribute) and c.func.attr in ("pop", "popitem", "clear") and A.chain(c.func.value) == "self._monitor_params"
+               for c in A.calls_in(s))
+
+
+def monitor_forgotten_only_after_unsubscribed(ctx, rm: REModel, rule: str):
+    """_monitor_params is the only record of the subscriptions the engine still owes the devices.  In every function that
+    removes entries (unmonitor, close_run, clear_monitors):  (1) an entry is removed only after clear_sub on that path returned
+    normally - if clear_sub raises, the entry must still be there for the later cleanup to retry;  (2) in close_run a clear_sub
+    failure must leave the function before the stop document is composed (not be swallowed): otherwise the run is closed while
+    a monitor can still emit events into it."""
+    pol = rm.policy().for_class(BMOD, BCLS)
+    for nm in ("unmonitor", "close_run", "clear_monitors"):
         f = rm.b(nm)
-        has_clear = bool(A.method_calls(f.node, "clear_sub"))
-        has_del = any(isinstance(s, ast.Delete) and "self._monitor_params[" in A.norm(s) for s in A.walk_stmts(f.node.body))
-        ctx.ob("C41.D2-subscription-removed", cname(f, None, "clear_sub and forget the entry"), has_clear and has_del,
-               "" if (has_clear and has_del) else f"the device keeps (or the bundler keeps re-instating) a subscription {why}", where=where(f, f.node))
+        g = C.build(f, pol)
+        forget = [n for n in g.nodes if _forgets_monitor(n)]
+        delegated = [n for n in g.nodes if n.stmt is not None and n.kind == "stmt" and nm != "clear_monitors" and A.find_calls(n.stmt, "self.clear_monitors")]
+        ok = bool(forget) or bool(delegated)
+        ctx.ob(rule, cname(f, None, "forgets the entries it unsubscribed"), ok,
+               "" if ok else "the entry is never removed: the bundler keeps re-instating the subscription", where=where(f, f.node))
+        def is_unsub(n):
+            return n.stmt is not None and n.kind == "stmt" and bool(A.method_calls(n.stmt, "clear_sub"))
+        for n in forget:
+            # (1a) not reachable from the entry without a clear_sub
+            seen = g.reachable([g.entry], avoid=is_unsub)
+            early = n.id in seen
+            # (1b) not reachable from an exceptional exit of clear_sub without another (successful) clear_sub
+            exc_succ = [v for u in g.nodes if is_unsub(u) for v, lab in g.succ[u.id] if isinstance(lab, tuple)]
+            seen2 = g.reachable(exc_succ, avoid=is_unsub) if exc_succ else {}
+            after_failure = n.id in seen2 and not (isinstance(n.stmt, ast.Delete) and is_unsub(n))
+            ok = not early and not after_failure
+            ctx.ob(rule, cname(f, n.stmt), ok,
+                   "" if ok else ("the entry is forgotten before clear_sub was called" if early else "the entry is forgotten although clear_sub failed")
+                   + ": if the device's clear_sub raises, nothing is left for the engine's cleanup to retry and the device keeps the subscription",
+                   nontrivial=True, where=where(f, n.stmt))
+    # (2) close_run: a failing clear_sub leaves close_run before the stop is composed
+    cr = rm.b("close_run")
+    g = C.build(cr, pol)
+    unsub = [n for n in g.nodes if n.stmt is not None and n.kind == "stmt" and (A.method_calls(n.stmt, "clear_sub") or A.find_calls(n.stmt, "self.clear_monitors"))
+             and not isinstance(n.stmt, (ast.For, ast.If, ast.While, ast.Try, ast.With))]
+    ok = bool(unsub)
+    ctx.ob(rule, cname(cr, None, "close_run unsubscribes the run's monitors"), ok, "" if ok else "monitors outlive the run", where=where(cr, cr.node))
+    stop_nodes = [n.id for n in g.nodes if n.stmt is not None and n.kind == "stmt" and A.find_calls(n.stmt, "_compose_stop")]
+    ctx.require(stop_nodes, "anchor vanished: _compose_stop call in RunBundler.close_run")
+    for n in unsub:
+        escapes = False
+        for v, lab in g.succ[n.id]:
+            if isinstance(lab, tuple) and lab[0] == "exc" and lab[1] in ("Exception", "BaseException"):
+                seen = g.reachable([v], avoid=lambda x: x.id in stop_nodes)
+                if g.raise_exit in seen or v == g.raise_exit:
+                    escapes = True
+        ctx.ob(rule, cname(cr, n.stmt) + " failure leaves close_run", escapes,
+               "" if escapes else "a failing clear_sub is swallowed: the stop document is composed and the bundler dropped while the device still holds the "
+               "monitor callback - it keeps emitting events into the closed run", nontrivial=True, where=where(cr, n.stmt))
+    # and every path to the stop passed the unsubscription
+    w = g.must_pass([g.entry], lambda x: any(x.id == u.id for u in unsub) or (x.stmt is not None and isinstance(x.stmt, ast.For) and bool(A.method_calls(x.stmt, "clear_sub"))),
+                    exits=stop_nodes)
+    ctx.ob(rule, cname(cr, None, "monitors removed before the stop document is composed"), w is None,
+           "" if w is None else "a monitor can emit an event after the RunStop was composed (num_events would miss it)", witness=w[-6:] if w else None, where=where(cr, cr.node))
+
+
+def d2_removal_sites(ctx, rm: REModel):
+    monitor_forgotten_only_after_unsubscribed(ctx, rm, "C41.D2-subscription-removed")
     um = rm.b("unmonitor")
     g = [s for s in A.walk_stmts(um.node.body) if isinstance(s, ast.If) and "not in self._monitor_params" in A.norm(s.test) and any(isinstance(x, ast.Raise) for x in s.body)]
     ctx.ob("C41.D2-subscription-removed", cname(um, None, "unmonitor of an unmonitored object is rejected"), bool(g), "" if g else "guard missing", where=where(um, um.node))
@@ -149,15 +212,7 @@ def d2_removal_sites(ctx, rm: REModel):
     h = rm.handler("unmonitor")
     ok = bool(A.find_calls(h.node, "current_run.unmonitor"))
     ctx.ob("C41.D2-subscription-removed", cname(h, None, "delegates to the run's bundler"), ok, "" if ok else "unmonitor no longer reaches the bundler", where=where(h, h.node))
-    # events only while the run is open: the callback emits through this run's compose_event (C01.D4) and is removed in close_run before the stop
-    cr = rm.b("close_run")
-    seq = list(A.walk_stmts(cr.node.body))
-    i_clear = next((i for i, s in enumerate(seq) if isinstance(s, ast.For) and A.method_calls(s, "clear_sub")), None)
-    i_stop = next((i for i, s in enumerate(seq) if A.find_calls(s, "_compose_stop") and not isinstance(s, (ast.If, ast.For))), None)
-    ok = i_clear is not None and i_stop is not None and i_clear < i_stop
-    ctx.ob("C41.D2-subscription-removed", cname(cr, None, "monitors removed before the stop document is composed"), ok,
-           "" if ok else "a monitor can emit an event after the RunStop was composed (num_events would miss it)", where=where(cr, cr.node))
-
+    # (ordering against the stop document: decided in monitor_forgotten_only_after_unsubscribed)
 
 def run(ctx):
     rm = REModel(ctx.repo)
